@@ -82,6 +82,7 @@ THEOREMS = [
     "PV.C11.C11_plscf_error_iff",
     "PV.C11.C11_shapes",
     "PV.C11.C11_plscf_shapes",
+    "PV.C11.C11_plscf_shapes_all",
     "PV.C11.Mutants.no_reshape_find_min_2d",
     "PV.C11.Mutants.no_reshape_explicit_same",
     "PV.C11.Mutants.no_raise_mutant_returns",
